@@ -37,7 +37,7 @@ with kvals_eqb (a b : kvals) {struct a} : bool :=
 
 (* what the Go round trip returned: the decoded value, or a failure *)
 Definition c11_model_roundtrip (t : ty) (v : value) : option value :=
-  match decode_res current t (encode t v) with
+  match decode_res current t (encode_go t v) with
   | Ok (v', []) => Some v'
   | _ => None
   end.
